@@ -36,7 +36,10 @@ def _deep(body):
 
 # programs nested more deeply than a recursive analysis can follow with Python's default recursion limit (and, further up,
 # than the parser accepts): operator chains, unary chains, attribute / call / subscript chains, brackets, nested blocks
-DEEP = [_deep("    x = " + "+".join(["1"] * n)) for n in (950, 1000, 1200, 1500, 2000, 2900, 3100, 5000)] + \
+# ... and flat programs whose *types* nest deeply: a thousand consecutive assignments each wrapping the previous list
+FLAT_NESTED = ["from nada_dsl import *\ndef nada_main():\n    v0 = [1]\n" + "".join(f"    v{i + 1} = [v{i}]\n" for i in range(n)) + "    return []\n"
+               for n in (600, 1200, 2500)]
+DEEP = FLAT_NESTED + [_deep("    x = " + "+".join(["1"] * n)) for n in (950, 1000, 1200, 1500, 2000, 2900, 3100, 5000)] + \
        [_deep("    x = " + " * ".join(["a"] * n)) for n in (1100, 1700)] + \
        [_deep("    x = " + "-" * 1200 + "1"), _deep("    x = " + "not " * 1200 + "True"), _deep("    x = a" + ".b" * 1500),
         _deep("    x = f" + "()" * 1300), _deep("    x = l" + "[0]" * 1300), _deep("    x = " + "(" * 150 + "a" + ")" * 150),
